@@ -12,6 +12,24 @@ NOT_APPLICABLE = {}
 HOOK_COMMITS = []
 
 CHECKS = {
+    "C19": {
+        "run": "^TestC19_",
+        "rule": ("cases = (PipeN arity 1-24 with one generated call site per arity, operator slots filled with catalogue rows each followed by a counting tap, script and ending, 1-3 sequential "
+                 "or 2-4 concurrent subscriptions, licence on/off); stand-alone counters x every word of length <= 3 x subscriptions x licence. Non-trivial = arity >= 2, or >= 2 "
+                 "subscriptions, or an ending other than completion; distinct by descriptor hash."),
+        "quick": {"rapid": 200, "timeout": 300, "shards": 4},
+        "thorough": {"rapid": 4000, "timeout": 3000, "shards": 16},
+        "assumptions": COMMON_ASSUMPTIONS + ["the licence check is switched by the verif-tagged setter VerifSetLicenseBypass (the real check needs a vendor-signed key)",
+                        "metrics are read back through prometheus.Registry.Gather on the collector returned by PipeN"],
+        "technique": "differential property-based testing (instrumented PipeN vs plain composition: trace, context values, source release) + exact counter equalities against counting taps",
+        "level_text": ("Exploration. For every arity 1..24 (generated call sites, one call per line as the plugin's source introspection requires) and rapid-generated operator slots, scripts "
+                       "and subscription patterns: what subscribers observe through roprometheus.PipeN - values, order, terminal, context values attached at Subscribe and per item, "
+                       "release of the source - equals the plain composition, licence on or off. With the licence on: subscriptions_total = Subscribe calls, notification_in_total = "
+                       "values the source emitted into the pipe, notification_out_total = values the subscribers received, one lag observation per source value, and per operator index "
+                       "one processing-time observation per value leaving that operator; the stand-alone counters equal the Next/Error/Complete/subscription events. Licence off: "
+                       "nothing exported, stand-alone operators are the identity."),
+        "level_note": "One listed finding (no processing-time observation for values emitted off the item path). In/lag/per-operator equalities are asserted for chains without early-terminating or re-subscribing stages (a synchronous source keeps emitting into a closed chain there).",
+    },
     "C18": {
         "run": "^TestC18_",
         "rule": ("cases = (plugin operator, parameters, input items) drawn by rapid from domain-specific generators with boundary pools (empty, multi-byte and invalid UTF-8, NUL, number-like "
